@@ -96,6 +96,17 @@ impl Scope {
     }
 }
 
+/// State which evaluating an element may modify, captured by
+/// `TransformerContext::snapshot()` so a failed attempt can be undone.
+pub struct ContextSnapshot {
+    element_stack: Vec<SvgElement>,
+    scope_stack: Vec<Scope>,
+    prev_element: Option<SvgElement>,
+    rng: RefCell<Pcg32>,
+    current_depth: u32,
+    in_specs: bool,
+}
+
 pub struct TransformerContext {
     /// Current state of given element; may be updated as processing continues
     elem_map: HashMap<String, SvgElement>,
@@ -415,6 +426,28 @@ impl TransformerContext {
             self.current_depth,
             self.in_specs,
         )
+    }
+
+    /// Capture the state which element processing may modify, so a failed
+    /// (and later retried) attempt can be undone.
+    pub fn snapshot(&self) -> ContextSnapshot {
+        ContextSnapshot {
+            element_stack: self.element_stack.clone(),
+            scope_stack: self.scope_stack.clone(),
+            prev_element: self.prev_element.clone(),
+            rng: self.rng.clone(),
+            current_depth: self.current_depth,
+            in_specs: self.in_specs,
+        }
+    }
+
+    pub fn restore(&mut self, snapshot: ContextSnapshot) {
+        self.element_stack = snapshot.element_stack;
+        self.scope_stack = snapshot.scope_stack;
+        self.prev_element = snapshot.prev_element;
+        self.rng = snapshot.rng;
+        self.current_depth = snapshot.current_depth;
+        self.in_specs = snapshot.in_specs;
     }
 
     pub fn get_top_element(&self) -> Option<SvgElement> {
